@@ -15,7 +15,7 @@ import (
 	"github.com/irismod/service/types"
 )
 
-const nScripts = 44
+const nScripts = 45
 
 func runScript(a *App, mon *Mon, seed int64, v int) {
 	p := baseParams()
@@ -671,6 +671,18 @@ func runScript(a *App, mon *Mon, seed int64, v int) {
 			answer(id, p1, p2, p3)
 		}
 		blocks(2)
+	case 44:
+		// the last batch of a context is answered by everybody before its expiry, then the consumer
+		// pauses, lets the expiry block pass and starts again: no batch beyond the total
+		id := s.call("svc", all, cons, 100, 4, false, true, 5, 2)
+		s.block() // batch 1
+		answer(id, p1, p2, p3)
+		blocks(5) // batch 2 of 2
+		answer(id, p1, p2, p3) // completed early
+		s.ctl("pause", id, cons)
+		blocks(5) // its expiry block passes while paused
+		s.ctl("start", id, cons)
+		blocks(8)
 	}
 	s.done()
 }
